@@ -288,6 +288,19 @@ def overlap_subset(k: int = 2):
                     yield dict(kind="gather", n=n, es=es, res=res, mc=2, k=3, chain=True)
 
 
+def failing_subset():
+    """Two awaits of one AsyncDAG in flight, the first one fails (a root node raises for ITS argument): the sibling await is unaffected."""
+    for n in (2, 3):
+        for es in shapes(n):
+            if len(es) > 1:
+                continue
+            for res in (("ma" * n)[:n], ("am" * n)[:n], ("ta" * n)[:n], "a" * n):
+                for f in range(n):
+                    if any(e[1] == f for e in es):
+                        continue
+                    yield dict(kind="gather", n=n, es=es, res=res, mc=2, k=2, failing=f)
+
+
 def async_hist_cases(tier):
     """sequences of awaits on ONE AsyncDAG object (arguments given / defaulted, setup() in between, a setup node still pending at the
     first await): judged like the histories of C15, whose sync flavour is the reference behaviour"""
